@@ -270,7 +270,10 @@ def check_pem(case):
 
 @st.composite
 def accept_cases(draw):
-    kind = draw(st.sampled_from(["raw", "valid", "len", "otherlen", "x>=p", "nonresidue", "y-perturbed", "y-negated", "hybrid", "prefix", "coord-aliased", "coord-in-n..p", "key-as-text"]))
+    kind = draw(st.sampled_from(["raw", "valid", "len", "otherlen", "x>=p", "nonresidue", "y-perturbed", "y-negated", "hybrid", "prefix", "coord-aliased", "coord-in-n..p", "key-as-text", "zero-octets"]))
+    if kind == "zero-octets":
+        # SEC1's encoding of the point at infinity (a single zero octet) and other all-zero strings: not a public key
+        return {"kind": kind, "b": draw(st.sampled_from([b"\x00", b"\x00", b"", b"\x00" * 33, b"\x00" * 65, b"\x00" * 32])).hex()}
     if kind == "key-as-text":
         # the hexadecimal TEXT of a valid key (66 / 130 characters, either case; 66 is within the 0..70 bytes the property
         # speaks of): a byte string of the wrong length whose first byte is 0x30
@@ -420,7 +423,7 @@ def _targets(tier):
     return [
         Target("sec1-roundtrip", check_roundtrip, strategy=lambda tier: st.fixed_dictionaries({"k": gen.scalars_valid()}), budget={"quick": 1200, "thorough": 25000}),
         Target("sec1-accept", check_accept, strategy=lambda tier: accept_cases(), budget={"quick": 4000, "thorough": 80000},
-               required=["nt:len65-prefix02", "nt:len33-prefix04", "nt:hybrid", "nt:x>=p", "nt:nonresidue", "nt:y-negated", "nt:coord-aliased", "nt:coord-in-n..p", "nt:len-no-prefix", "nt:key-as-text", "nt:after-decoding-valid-base", "expect-accept", "expect-reject"]),
+               required=["nt:len65-prefix02", "nt:len33-prefix04", "nt:hybrid", "nt:x>=p", "nt:nonresidue", "nt:y-negated", "nt:coord-aliased", "nt:coord-in-n..p", "nt:len-no-prefix", "nt:key-as-text", "nt:zero-octets", "nt:after-decoding-valid-base", "expect-accept", "expect-reject"]),
         Target("wif", check_wif, strategy=lambda tier: wif_cases(), budget={"quick": 3000, "thorough": 60000},
                required=["nt:key-31-leading-zero-bytes", "nt:suffix", "nt:suffix>=57-bytes", "nt:after-same-key-other-type-network-suffix", "nt:wif-unknown-version", "nt:wif-mutated", "nt:bad-key-len", "nt:bad-key-range"]),
         Target("pem", check_pem, strategy=lambda tier: pem_cases(), budget={"quick": 320, "thorough": 6000},
